@@ -26,6 +26,19 @@ use std::borrow::Borrow;
 use std::collections::BTreeMap;
 use std::fmt::Debug;
 
+/// Describes an error with its chain of causes, like `{:?}` does, but without the stack
+/// backtrace that is captured (and printed) only when `RUST_BACKTRACE` is set: the text is
+/// handed to contracts in [Reply], so it must not depend on the environment or the call stack.
+fn describe_error(error: &AnyError) -> String {
+    let mut text = format!("{:?}", error);
+    if error.backtrace().status() == std::backtrace::BacktraceStatus::Captured {
+        if let Some(at) = text.rfind("\n\nStack backtrace:\n") {
+            text.truncate(at);
+        }
+    }
+    text
+}
+
 /// Contract state kept in storage, separate from the contracts themselves (contract code).
 const CONTRACTS: Map<&Addr, ContractData> = Map::new("contracts");
 
@@ -874,7 +887,7 @@ where
                     id,
                     payload,
                     gas_used: 0,
-                    result: SubMsgResult::Err(format!("{:?}", e)),
+                    result: SubMsgResult::Err(describe_error(&e)),
                 };
                 self.reply(api, router, storage, block, contract, reply)
             } else {
